@@ -450,3 +450,170 @@ Theorem C02_generated_next_level : forall ord ordp (q : kdq) (w : lk) coords t,
     end.
 Proof. exact gen_next_level_eq. Qed.
 Print Assumptions C02_generated_next_level.
+
+(* (11) ROUTE T, WHOLE-STEP OPTIMALITY OF THE GENERATED STEP (Proofs/LinkstepOpt.v): the generated analogue of
+   C02_step_optimal.  (10c)/(10d) cover one non-shortcut subnet under a free hypothesis item_ok; here the two
+   shortcut returns of subnet_linker_recursive, the composition over the dictionary (for ANY iteration order of
+   the Python sets and any dictionary order) and the origin of item_ok are proved. *)
+From TP Require Import Proofs.LinkstepOpt.
+
+(* (11a) The one-source / one-destination shortcut `return [source_set.pop()], [dest_set.pop()]` links without
+   any search.  It is optimal PROVIDED every accepted candidate costs at most the null link
+   ([bounded R2 l]: 0 <= dist**2 <= search_range**2 for every candidate of the source): then linking the source
+   to its one destination d at its cheapest candidate is is_opt for that source.  (The other reachable shortcut,
+   a destination without source, makes no pair: Opt.is_opt_nil.  The third shortcut, a source without
+   destination, is unreachable: no dictionary entry has an empty destination set, C02_subnet_entries.) *)
+Theorem C02_generated_shortcut_optimal : forall (s d : nat) (R2 : Z) (l : list cand),
+  l <> [] -> bounded R2 l -> (forall dc, In dc l -> fst dc = Some d) ->
+  exists c, In (Some d, c) l /\
+    is_opt [(s, sort_cands l ++ [(None, R2)])] [((s, sort_cands l ++ [(None, R2)]), (Some d, c))].
+Proof. exact shortcut_one_one_opt. Qed.
+Print Assumptions C02_generated_shortcut_optimal.
+
+(* (11b) ... and WITHOUT that bound it is not.  The KD-tree accepts candidates up to search_range + 1e-7; in the
+   world below search_range**2 = 25 and the query hands source 0 to destination 0 at squared distance 26.  The
+   generated Subnets(...) ; assign_links returns the link 0 -> 0 (through the shortcut), although leaving the source
+   unlinked (cost 25) is cheaper: the returned assignment is not is_opt.  This is exactly the slack by which the
+   implementation may deviate from the property's optimum; (11d) excludes it by hypothesis on the query. *)
+Example C02_generated_shortcut_needs_bound :
+  (exists w1 w2, py_Subnets_init slack_query slack_world = FDone w1 tt /\
+                 get_forward_cands w1 0 = [(Some 0%nat, 26)] /\
+                 py_Linker_assign_links (fun l => l) w1 = FDone w2 ([Some 0%nat], [Some 0%nat]))
+  /\ ~ is_opt [slack_item] [(slack_item, (Some 0%nat, 26))].
+Proof. exact shortcut_not_opt_without_bound. Qed.
+
+(* (11c) Subnets(...) ; assign_links on ANY world state (w1 is what (10a) leaves: Inv, mst_sim, forward_cands =
+   fcs_of) and ANY query result E = qedges q whose costs lie in [0, search_range**2], with MAX_SUB_NET_SIZE >= 1
+   (with 0 the one-source shortcut would link where the size rule says raise):
+     - SubnetOversizeException if some dictionary entry has more than MAX_SUB_NET_SIZE sources;
+     - otherwise NO exception, and the returned (spl, dpl) are the links of an assignment that is is_opt over
+       the items read off the query ([qitems]: for every source its candidates sorted by cost, then the null
+       link) -- the per-subnet optima of (10d) and the shortcuts of (11a) composed by Opt.is_opt_concat using
+       the partition facts of Inv (source sets and destination sets of the entries disjoint and covering);
+       every source occurs exactly once in spl, every destination exactly once in dpl, no (None, None) pair:
+       the preconditions of C02_generated_apply_links. *)
+Theorem C02_generated_assign_links_optimal : forall (ord : list nat -> list nat),
+  (forall l, Permutation (ord l) l) -> forall (w1 : lk) (E : list (nat * nat * Z)) (m2 : mst),
+  let ns := length (k_srcs w1) in let nd := length (k_dests w1) in
+  Inv nd (map edge_of E) m2 -> mst_sim ns nd (k_mst w1) m2 ->
+  (forall s, (s < ns)%nat -> get_forward_cands w1 s = fcs_of s E) ->
+  (forall e, In e E -> (fst (fst e) < ns)%nat) ->
+  (forall e, In e E -> 0 <= snd e <= k_R2 w1) -> 0 <= k_R2 w1 -> (1 <= k_max_size w1)%nat ->
+  k_includes_lost w1 = false ->
+  let r := py_Linker_assign_links ord w1 in
+  (oversize_in (k_max_size w1) (dict_values w1) -> r = FFail XSubnetOversizeException) /\
+  (~ oversize_in (k_max_size w1) (dict_values w1) ->
+     exists w2 spl dpl pairs, r = FDone w2 (spl, dpl) /\ is_opt (qitems (k_R2 w1) E ns) pairs /\
+       links_of spl dpl = map forget (map strip pairs) /\
+       Permutation (somes spl) (seq 0 ns) /\ Permutation (somes dpl) (seq 0 nd) /\
+       length spl = length dpl /\ Forall good_pair (combine spl dpl) /\
+       same_frame w1 w2 /\ k_mst w2 = k_mst w1).
+Proof. exact assign_links_opt. Qed.
+Print Assumptions C02_generated_assign_links_optimal.
+
+(* (11d) The KD-tree primitive.  [query_exact m sps ds q]: row i of q lists every source whose (weighted) squared
+   distance to destination i is <= search_range**2 exactly once, at that squared distance, and nothing else
+   ([query_ok] adds "nearest first"; the order within a row only decides dictionary ids and tie-breaking).
+   Under it the forward_cands the generated compute() builds for source s are Model.Link.real_cands of its
+   position, so the items of (11c) ARE Model.Link.items_of -- item_ok and "every accepted candidate costs at
+   most the null link" are consequences, no longer hypotheses. *)
+Theorem C02_generated_real_cands : forall m sps ds (q : kdq) s sp,
+  query_exact m sps ds q -> nth_error sps s = Some sp -> fcs_of s (qedges q) = real_cands m sp ds 0.
+Proof. exact gen_real_cands. Qed.
+Print Assumptions C02_generated_real_cands.
+
+Theorem C02_generated_items : forall m pred st ds (q : kdq),
+  query_exact m (map (pred (now st)) (live st)) ds q ->
+  qitems (mR2 m) (qedges q) (length (live st)) = items_of m pred st ds.
+Proof. exact qitems_items_of. Qed.
+Print Assumptions C02_generated_items.
+
+(* (11e) The size clause on the grouping of (3)/(4): the dictionary has an entry with more than ms >= 1 sources
+   exactly when Model.Link.components of the items has a group with more than ms sources. *)
+Theorem C02_generated_oversize_is_component : forall (nd ns : nat) (R2 : Z) (E : list (nat * nat * Z)) (m2 : mst),
+  Inv nd (map edge_of E) m2 -> (forall e, In e E -> (fst (fst e) < ns)%nat) -> forall ms, (1 <= ms)%nat ->
+  (oversize_in ms (map snd (subs m2)) <-> exists g, In g (components (qitems R2 E ns)) /\ (ms < length g)%nat).
+Proof. exact oversize_components. Qed.
+Print Assumptions C02_generated_oversize_is_component.
+
+(* (11f) HEADLINE: one generated step is the Crocker-Grier optimum.  The world w stands for the Linker right after
+   update_hash: its source points are the candidate sources of the model state st (k_srcs w = live st: previous
+   frame plus remembered, (7)), its destination points the new frame, search_range**2 = mR2 m; q is the result
+   of the KD-tree query under (11d) at the positions pred predicts.  Then Subnets(...) does not raise, and
+   assign_links
+     - raises SubnetOversizeException exactly when some subnet of the dictionary has more than MAX_SUB_NET_SIZE
+       sources, which is exactly when some group of [components] has (the clause of C02_step_optimal), and
+       raises NOTHING else;
+     - otherwise returns (spl, dpl) whose links (source, destination or None) are those of pairs that are
+       is_opt over items_of m pred st (the new frame): over ALL candidate sources at once, one-to-one, using
+       only pairs within range, of minimal total (squared displacements + search_range**2 per source left
+       unlinked); every source is listed once, every destination once (unlinked ones with source None: new
+       trajectories).  For every iteration order [ord] of the Python sets. *)
+Theorem C02_generated_step_optimal : forall (ord : list nat -> list nat) (m : metric) (pred : nat -> src -> pt)
+    (st : lstate) (q : kdq) (w : lk),
+  (forall l, Permutation (ord l) l) ->
+  metric_ok m -> (1 <= k_max_size w)%nat -> k_srcs w = live st -> k_R2 w = mR2 m ->
+  query_exact m (map (pred (now st)) (live st)) (k_dests w) q ->
+  let its := items_of m pred st (k_dests w) in
+  exists w1, py_Subnets_init q w = FDone w1 tt /\
+    (py_Linker_assign_links ord w1 = FFail XSubnetOversizeException
+       <-> exists e, In e (dict_values w1) /\ (k_max_size w < length (fst e))%nat) /\
+    ((exists e, In e (dict_values w1) /\ (k_max_size w < length (fst e))%nat)
+       <-> exists g, In g (components its) /\ (k_max_size w < length g)%nat) /\
+    (forall x, py_Linker_assign_links ord w1 = FFail x -> x = XSubnetOversizeException) /\
+    (forall w2 spl dpl, py_Linker_assign_links ord w1 = FDone w2 (spl, dpl) ->
+       exists pairs, is_opt its pairs /\ links_of spl dpl = map forget (map strip pairs) /\
+         Permutation (somes spl) (seq 0 (length (live st))) /\
+         Permutation (somes dpl) (seq 0 (length (k_dests w))) /\
+         length spl = length dpl /\ (forall sd, In sd (combine spl dpl) -> sd <> (None, None)) /\
+         same_frame w1 w2).
+Proof. exact gen_step_optimal. Qed.
+Print Assumptions C02_generated_step_optimal.
+
+(* (11g) ... and the whole generated Linker.next_level = update_hash ; Subnets(...) ; assign_links ; apply_links,
+   links AND labels: composing (11f) with (10e).  w is the Linker before the step, the source points of the step
+   (points of the current hash, then mem_set in iteration order ordp) are the candidate sources live st, qq is the
+   memory queue of (7).  next_level raises SubnetOversizeException exactly when a group of [components] has more
+   than MAX_SUB_NET_SIZE sources and raises nothing else; otherwise there is an is_opt assignment [pairs] over ALL
+   candidate sources such that every point j of the new frame gets the track id of the source [pairs] links to it,
+   or a fresh id (counter + rank among the new trajectories), and mem_set is what the model's q_step keeps. *)
+Theorem C02_generated_next_level_optimal : forall (ord : list nat -> list nat) (ordp : list src -> list src)
+    (m : metric) (pred : nat -> src -> pt) (st : lstate) (qq : qstate) (q : kdq) (w : lk) (coords : list pt) (t : nat),
+  (forall l, Permutation (ord l) l) ->
+  metric_ok m -> (1 <= k_max_size w)%nat -> k_R2 w = mR2 m ->
+  hash_srcs w ++ ordp (k_mem_set w) = live st ->
+  query_exact m (map (pred (now st)) (live st)) coords q ->
+  q_mem qq = map key_of (k_mem_set w) -> q_hist qq = map (map key_of) (k_mem_history w) ->
+  (k_memory w <= length (k_mem_history w))%nat -> NoDup (map key_of (live st)) ->
+  let its := items_of m pred st coords in
+  let r := py_Linker_next_level ord ordp q w coords t in
+  (r = FFail XSubnetOversizeException <-> exists g, In g (components its) /\ (k_max_size w < length g)%nat) /\
+  (forall x, r = FFail x -> x = XSubnetOversizeException) /\
+  (forall w3 u, r = FDone w3 u ->
+     exists spl dpl pairs, is_opt its pairs /\ links_of spl dpl = map forget (map strip pairs) /\
+       Permutation (somes dpl) (seq 0 (length coords)) /\
+       k_counter w3 = (k_counter w + length (births spl dpl))%nat /\
+       (forall j, (j < length coords)%nat ->
+          alook j (k_dtrack w3) = Some (match source_of (links_of spl dpl) j with
+                                        | Some i => lab_of st i
+                                        | None => (k_counter w + index_of j (births spl dpl))%nat end)) /\
+       (forall k, In k (map key_of (k_mem_set w3)) <-> In k (q_mem (q_step (k_memory w) (live st) (links_of spl dpl) qq))) /\
+       k_dests w3 = coords /\ k_now w3 = t).
+Proof. exact gen_next_level_optimal. Qed.
+Print Assumptions C02_generated_next_level_optimal.
+
+(* non-vacuity of (11f): sources at 0, 3, 20, new frame at 1, 4, 40, search_range 5.  The query below satisfies
+   query_ok (sources 0 and 1 compete for destinations 0 and 1, nearest first); the generated step -- from a world
+   with a stale dictionary flag and stale .subnet attributes -- links 1 -> 1 and 0 -> 0, starts a trajectory at
+   destination 2 and loses source 2: the links of the model's step_links. *)
+Example C02_generated_query_example :
+  query_ok ex_metric (map (no_pred (now ex_state)) (live ex_state)) ex_dests ex_query.
+Proof. exact ex_query_ok. Qed.
+Example C02_generated_step_optimal_example :
+  match py_Subnets_init ex_query ex_world with
+  | FDone w1 _ => match py_Linker_assign_links (fun l => l) w1 with FDone _ v => Some (v, dict_values w1) | FFail _ => None end
+  | FFail _ => None end
+  = Some ([Some 1; Some 0; None; Some 2]%nat, [Some 1; Some 0; Some 2; None]%nat, [([1; 0], [1; 0]); ([], [2])]%nat)
+  /\ step_links ex_metric 30 no_pred ex_state ex_dests
+     = Ok [(2%nat, (None, 25)); (1%nat, (Some 1%nat, 1)); (0%nat, (Some 0%nat, 1))].
+Proof. vm_compute. split; reflexivity. Qed.
